@@ -127,6 +127,8 @@ def _used_base_then_child(m):
 
 
 TEMPLATES = {
+    "class_with_default": ("mn: int", 'Object.inline("D", properties={"a": Property(Number(minimum=mn)), "b": Property(Integer(default=2))}, default={"a": mn, "b": 7, "zz": 1})', "FLAGS:a,b,a b", [], "quick"),
+    "nested_class_with_default": ("mn: int", 'Element(properties={"in": Property(Object.inline("D", properties={"x y": Property(Number(minimum=mn))}, default={"x y": mn, "q": 1}))}, items=Object.inline("E", properties={"x y": Property(Integer())}, default={"x y": 3}))', "FLAGS:in,b|x y", [], "quick"),
     "child_of_used_base": ("mn: int", "_used_base_then_child(mn)", "FLAGS:a,b,a b", [], "quick"),
     "obj_untyped": ("mn: int", 'parse_s({"properties": {"a": {"minimum": mn}, "a b": {"type": "integer"}, "b": {"default": 3}}, "patternProperties": {"b$": {"maximum": mn}}})', DV, DPRE, "quick"),
     "obj_typed": ("mn: int", 'parse_s({"type": "object", "title": "T", "properties": {"a": {"type": "number", "minimum": mn}, "a b": {"type": "integer"}, "b": {"default": 3}}, "patternProperties": {"b$": {"maximum": mn}}, "additionalProperties": {"type": "number"}})', "FLAGS:a,b,a b", [], "quick"),
